@@ -190,9 +190,59 @@ self_comparison (void)
     }
 }
 
+// Non-member erase compares each element with the caller's value of ITS OWN type (std::erase
+// semantics): a value that would change when converted to the element type must match nothing.
+struct by_id
+{
+  int id;
+  int payload;
+  friend bool operator== (const by_id& a, const by_id& b) { return a.id == b.id && a.payload == b.payload; }
+  friend bool operator== (const by_id& a, int key) { return a.id == key; }
+};
+
+template <class T, class U, unsigned N>
+static void
+hetero_erase_case (const T *vals, unsigned n, const U& value, const char *what)
+{
+  gch::small_vector<T, N> v (vals, vals + n);
+  std::vector<T> m (vals, vals + n);
+  const std::size_t r = erase (v, value);
+  std::size_t removed = 0;
+  for (typename std::vector<T>::iterator it = m.begin (); it != m.end ();)
+    if (*it == value) { it = m.erase (it); ++removed; } else ++it;
+  ++cases;
+  bool ok = r == removed && v.size () == m.size ();
+  for (std::size_t i = 0; ok && i < m.size (); ++i)
+    ok = v[i] == m[i];
+  if (! ok)
+    fail (what, "heterogeneous erase", N, 0, static_cast<unsigned long> (r), static_cast<unsigned long> (removed));
+}
+
+template <unsigned N>
+static void
+hetero_erase (void)
+{
+  const unsigned char uc[] = { 44, 1, 44, 200, 255, 0 };
+  hetero_erase_case<unsigned char, int, N> (uc, 6, 300, "erase(sv<unsigned char>, 300)");
+  hetero_erase_case<unsigned char, int, N> (uc, 6, 44, "erase(sv<unsigned char>, 44)");
+  hetero_erase_case<unsigned char, int, N> (uc, 6, -56, "erase(sv<unsigned char>, -56)");
+  const signed char sc[] = { -56, 3, -56, 100 };
+  hetero_erase_case<signed char, int, N> (sc, 4, 200, "erase(sv<signed char>, 200)");
+  const int in[] = { 2, 3, 2, 7 };
+  hetero_erase_case<int, double, N> (in, 4, 2.5, "erase(sv<int>, 2.5)");
+  hetero_erase_case<int, double, N> (in, 4, 2.0, "erase(sv<int>, 2.0)");
+  hetero_erase_case<int, long long, N> (in, 4, (1ll << 32) + 2, "erase(sv<int>, 2^32+2)");
+  const float fl[] = { 0.1f, 0.5f, 0.1f };
+  hetero_erase_case<float, double, N> (fl, 3, 0.1, "erase(sv<float>, 0.1)");
+  hetero_erase_case<float, double, N> (fl, 3, 0.5, "erase(sv<float>, 0.5)");
+  const by_id ids[] = { { 1, 10 }, { 2, 20 }, { 1, 30 }, { 3, 40 } };
+  hetero_erase_case<by_id, int, N> (ids, 4, 1, "erase(sv<by_id>, key)");
+}
+
 int
 main (void)
 {
+  hetero_erase<0> (); hetero_erase<2> (); hetero_erase<8> ();
   self_comparison<0> (); self_comparison<2> (); self_comparison<5> ();
   const std::vector<std::vector<int> > cs = all_contents ();
   for_type<int> ("int", cs);
